@@ -277,7 +277,61 @@ def r3_parse_actions(ctx, m) -> None:
             r.ok("C02.R3", c.qual, f"arg_count={av}, token_list={tv}", loc)
         else:
             r.violation("C02.R3", c.qual, f"arg_count={av}, token_list={tv}", f"expected arg_count={ac}, token_list={tl} for the grammar element this class is attached to", loc)
-    r.floor("C02.R3", 10)
+    # postprocess keeps the operator structure: tabulated over operator arity x surviving arguments x argument kind
+    from ..tabulate import Interp, Raised
+    pp = prog.func(MOD + ".ConditionItem.postprocess")
+
+    class _Leaf:
+        def postprocess(self, detections, parent, source=None):
+            return self
+
+    class ConditionNOT:  # stand-ins named like the real classes (the body may test isinstance)
+        arg_count = 1
+
+        def __init__(self, args):
+            self.args = args
+
+        def postprocess(self, detections, parent, source=None):
+            return self
+
+    class ConditionAND(ConditionNOT):
+        arg_count = 2
+
+    class ConditionOR(ConditionNOT):
+        arg_count = 2
+
+    class _Super:
+        def postprocess(self, *a, **k):
+            return None
+
+    wrong = []
+    ncase = 0
+    for cls_ in (ConditionNOT, ConditionAND, ConditionOR):
+        for args in ([], [None], [_Leaf()], [ConditionNOT([_Leaf()])], [_Leaf(), _Leaf()], [None, _Leaf()], [ConditionNOT([_Leaf()]), ConditionNOT([_Leaf()])]):
+            me = cls_(list(args))
+            live = [a for a in args if a is not None]
+            if cls_.arg_count == 1 and len(args) > 1:
+                continue
+            it = Interp({"self": me, "detections": None, "parent": None, "source": None, "super": lambda: _Super(),
+                         "ConditionNOT": ConditionNOT, "ConditionAND": ConditionAND, "ConditionOR": ConditionOR})
+            try:
+                got = it.call(pp.node.body)
+            except Raised as e:
+                got = f"<raises {e}>"
+            if cls_.arg_count > 1 and len(live) == 1:
+                want = live[0]
+            elif len(live) == 0:
+                want = None
+            else:
+                want = me
+            ncase += 1
+            if got is not want:
+                wrong.append(f"{cls_.__name__} with arguments {[type(a).__name__ for a in args]}: returns {type(got).__name__ if not isinstance(got, str) else got}{' (its argument)' if got in live else ''} instead of {'itself' if want is me else type(want).__name__}")
+    if wrong:
+        r.violation("C02.R3", pp.qual, f"postprocess table: {wrong[0]}", f"{len(wrong)} of {ncase} tabulated cases deviate: postprocess may only collapse an n-ary operator with a single surviving argument (to that argument) or an operator without arguments (to None); any other rewrite changes the boolean function (e.g. returning the inner NOT of a double negation negates once instead of twice)", pp.loc)
+    else:
+        r.ok("C02.R3", pp.qual, f"postprocess tabulated over {ncase} cases (NOT/AND/OR x 0/1/2 surviving arguments x leaf/NOT arguments): collapses only single-argument n-ary operators and empty operators", pp.loc)
+    r.floor("C02.R3", 11)
 
 
 def r4_selector(ctx, m, pat_alpha: str) -> None:
